@@ -173,8 +173,11 @@ DropOK(cs) == LET i == cs.nrep + 1 IN
 
 \* the server asks the transport for bytes that were not sent yet (C03):
 \* every fully received request has been answered, nothing half-written, no call pending
+\* (once a write has failed the client is gone: what the server still reads, executes or tries to write for it cannot be
+\* observed reply by reply - a buffered writer, for one, does not touch the socket again after an error - and only the
+\* release of the connection is judged from then on)
 OnBlock(cs) ==
-  IF cs.wild THEN (IF Live(cs) /\ ~cs.closed THEN cs ELSE Reject) ELSE
+  IF cs.wild \/ cs.wfail THEN (IF Live(cs) /\ ~cs.closed THEN cs ELSE Reject) ELSE
   IF Live(cs) /\ ~cs.closed /\ cs.calls = <<>> /\ cs.wbuf = <<>> /\ cs.nrep = cs.nreq /\ ~cs.quit /\ ~cs.dropped
   THEN cs ELSE Reject
 
@@ -275,8 +278,9 @@ OnEos(cs, how) == IF ~cs.opened THEN Reject ELSE [cs EXCEPT !.eos = how]
 OnClose(cs) ==
   IF cs.wild THEN (IF Live(cs) /\ ~cs.closed THEN [cs EXCEPT !.closed = TRUE] ELSE Reject) ELSE
   IF ~Live(cs) \/ cs.closed THEN Reject
+  ELSE IF cs.wfail THEN [cs EXCEPT !.closed = TRUE, !.calls = <<>>]
   ELSE IF cs.calls # <<>> /\ ~(\E i \in 1..Len(cs.calls) : ResFail(cs.calls[i])) THEN Reject
-  ELSE IF cs.quit \/ cs.eos # "none" \/ cs.wfail THEN [cs EXCEPT !.closed = TRUE]
+  ELSE IF cs.quit \/ cs.eos # "none" THEN [cs EXCEPT !.closed = TRUE]
   ELSE IF DropOK(cs) \/ (HasCur(cs) /\ cs.calls # <<>> /\ ResFail(cs.calls[Len(cs.calls)]) /\ cs.calls[Len(cs.calls)].res.t = "nilmsg")
        THEN [cs EXCEPT !.closed = TRUE, !.dropped = TRUE, !.calls = <<>>]
   ELSE Reject
